@@ -46,7 +46,7 @@ def generate_concurrent(rng):
 def judge_concurrent(sc, run, sim, res):
   hor_us = int(sc['horizon_s'] * 1e6)
   cap, free = sc['queue_size'], sc['free']
-  appends = ac.timer_appends(run, 0)
+  appends = ac.source_appends(run, 0)
   q = ac.replay_queue(run, 0)
   group = [s for s in run.sources if s['slot'] is not None and s['slot'] >= 100]
   accepted = [s for s in group if not s['rejected']]
@@ -75,7 +75,7 @@ def judge_concurrent(sc, run, sim, res):
                     '%s was rejected with %s, yet its event was put into the queue %d time(s)' % (desc, s['exc'], len(fired)))
         return
     else:
-      inst = [g[3] for g in appends.get(s['threads'][0], [])] if s['threads'] else []
+      inst = [g[3] for g in appends.get(s['uid'], [])]
       cal = calendar(s, hor_us)
       if inst != cal:
         res.violate('tracked-source-disturbed', {'concurrent': True}, '%s posted at %s instead of %s' % (desc, [i / 1e6 for i in inst[:10]], [c / 1e6 for c in cal[:10]]))
@@ -136,7 +136,7 @@ def execute(sc, sched):
     elif ok:
       hor_us = int(sc['horizon_s'] * 1e6)
       cap = sc['queue_size']
-      appends = ac.timer_appends(run, 0)
+      appends = ac.source_appends(run, 0)
       q = ac.replay_queue(run, 0)
       for si, s in enumerate(run.sources):
         desc = 'timed post #%d %s/%s period=%s times=%s deferred=%s' % (si, s['kind'], s['sig'], s['period'], s['times'], s['deferred'])
@@ -159,7 +159,7 @@ def execute(sc, sched):
           if s['rejected']:
             res.violate('tracked-source-rejected', {}, '%s raised %s although only %d sources were tracked' % (desc, s['exc'], si))
             break
-          inst = [g[3] for g in appends.get(s['threads'][0], [])] if s['threads'] else []
+          inst = [g[3] for g in appends.get(s['uid'], [])]
           cal = calendar(s, hor_us)
           if inst != cal:
             res.violate('tracked-source-disturbed', {}, '%s posted at %s instead of %s' % (desc, [i / 1e6 for i in inst[:10]], [c / 1e6 for c in cal[:10]]))
